@@ -335,6 +335,7 @@ type SpecFn struct {
 	Params []string
 	Body   *CExpr
 	Text   string
+	Pkg    string
 }
 
 type ContractFile struct {
@@ -430,7 +431,7 @@ func parseContractFile(path, pkgPath string) (*ContractFile, error) {
 			head := strings.TrimSpace(rc.text[:k])
 			body := strings.TrimSpace(rc.text[k+3:])
 			lp := strings.Index(head, "(")
-			sf := &SpecFn{Text: rc.text}
+			sf := &SpecFn{Text: rc.text, Pkg: pkgPath}
 			if lp < 0 {
 				sf.Name = head
 			} else {
